@@ -28,7 +28,7 @@ def core(e, depth=0):
     return e
 
 
-def classify_value(e, depth=0):
+def classify_value(e, depth=0, body=None):
     """symbolic description of a u16 value used as address / data in an instruction arm"""
     e = core(e)
     if not isinstance(e, tuple) or depth > 12:
@@ -48,14 +48,14 @@ def classify_value(e, depth=0):
         a = e[2]
         if c.endswith("<impl u16>::wrapping_add_signed") or c.endswith("<impl u16>::wrapping_add") or c.endswith("<impl u16>::wrapping_sub"):
             op = "+" if "add" in c else "-"
-            return (op, classify_value(a[0], depth + 1), classify_value(a[1], depth + 1))
+            return (op, classify_value(a[0], depth + 1, body), classify_value(a[1], depth + 1, body))
         if c.endswith("Offset::<OFF, N>::get"):
             ch = tables.find_self_fields(a[0])
             return ("off", int(ch[0][1])) if ch else ("off", "?")
         if c.endswith("Word::get_if_init") or c.endswith("Word::get"):
-            return ("val", classify_value(a[0], depth + 1))
+            return ("val", classify_value(a[0], depth + 1, body))
         if c.endswith("Simulator::read_mem"):
-            return ("mem", classify_value(a[1], depth + 1))
+            return ("mem", classify_value(a[1], depth + 1, body))
         if c.endswith("RegFile as std::ops::Index<ast::Reg>>::index") or c.endswith("RegFile as std::ops::IndexMut<ast::Reg>>::index_mut"):
             r = core(a[1])
             an, fs = _agg_name(r)
@@ -64,19 +64,26 @@ def classify_value(e, depth=0):
             ch = tables.find_self_fields(r)
             return ("reg", ("operand", int(ch[0][1]))) if ch else ("reg", "?")
         if c.endswith("Word::new_init") or ("From<" in c and c.endswith(">::from")):
-            return classify_value(a[0], depth + 1)
+            return classify_value(a[0], depth + 1, body)
         if c.endswith("Word as std::ops::Add>::add"):
-            return ("add", classify_value(a[0], depth + 1), classify_value(a[1], depth + 1))
+            return ("add", classify_value(a[0], depth + 1, body), classify_value(a[1], depth + 1, body))
         if c.endswith("Word as std::ops::BitAnd>::bitand"):
-            return ("bitand", classify_value(a[0], depth + 1), classify_value(a[1], depth + 1))
+            return ("bitand", classify_value(a[0], depth + 1, body), classify_value(a[1], depth + 1, body))
         if c.endswith("Word as std::ops::Not>::not"):
-            return ("not", classify_value(a[0], depth + 1))
+            return ("not", classify_value(a[0], depth + 1, body))
         if c.endswith("Simulator::prefetch_pc"):
             return ("prefetch_pc",)
         return ("call", c.split("::")[-1])
     if k == "cast":
-        return classify_value(e[2], depth + 1)
+        return classify_value(e[2], depth + 1, body)
     if k == "local":
+        if body is not None:
+            alts = set()
+            for (bi, si, rv) in body.defs().get(e[1], []):
+                x = body.expr_of_call(rv, 12, e[3]) if si == "term" else body.expr_of_rvalue(rv, 12)
+                alts.add(classify_value(x, depth + 1, body))
+            if alts:
+                return ("phi", frozenset(alts))
         return ("local", e[2])
     if k == "arg":
         return ("arg", e[2])
